@@ -5,8 +5,10 @@ checks against it on /repo, and keep it under /verif/seeded/<PROP>-m<k>/."""
 import json, os, re, shutil, subprocess, sys
 prop, k = sys.argv[1], sys.argv[2]
 checks = sys.argv[3:] or [prop]
-src = "/tmp/seed-%s-out/m%s" % (prop, k)
+rnd = os.environ.get("SEED_ROUND", "")        # "" = round 1; "2" = round 2: /tmp/seed2-<P>-out, kept as <P>-r2m<k>
+src = "/tmp/seed%s-%s-out/m%s" % (rnd, prop, k)
 wt = "/tmp/confirm-%s-m%s" % (prop, k)
+tag = ("r%sm" % rnd) if rnd else "m"
 ENV = dict(os.environ, GOFLAGS="-mod=mod", GOPROXY="off", GOSUMDB="off", GOTOOLCHAIN="local")
 def sh(cmd, cwd=None):
     return subprocess.run(cmd, shell=True, capture_output=True, text=True, cwd=cwd, env=ENV)
@@ -83,7 +85,7 @@ except Exception:
 meta["checks_run"] = ran
 meta["detected_by"] = [p for p, v in ran.items() if isinstance(v, dict) and v.get("exit") == 1 and v.get("violations")]
 readme = os.path.join(src, "README.md")
-dst = "/verif/seeded/%s-m%s" % (prop, k)
+dst = "/verif/seeded/%s-%s%s" % (prop, tag, k)
 os.makedirs(dst, exist_ok=True)
 shutil.copy(patch, os.path.join(dst, "patch.diff"))
 if demo:
